@@ -283,9 +283,20 @@ def run_impl(ops_path, out_path, binary=None, timeout=600, env=None):
     e = dict(os.environ, GOMEMLIMIT="4GiB")
     if env:
         e.update(env)
+    argv = binary if isinstance(binary, list) else [binary]
+    if isinstance(binary, list) and binary and binary[0].endswith(".test"):
+        # package-main driver: a `go test -c` binary that writes its result lines to $VERIF_OUT
+        e["VERIF_OUT"] = out_path
+        with open(ops_path) as fin:
+            try:
+                p = subprocess.run(argv, stdin=fin, stdout=subprocess.PIPE, stderr=subprocess.STDOUT, timeout=timeout, env=e,
+                                   cwd=os.path.join(BUILD))
+                return (0 if p.returncode == 0 else p.returncode), p.stdout.decode(errors="replace")[-4000:]
+            except subprocess.TimeoutExpired:
+                return -9, "timeout"
     with open(ops_path) as fin, open(out_path, "w") as fout:
         try:
-            p = subprocess.run([binary], stdin=fin, stdout=fout, stderr=subprocess.PIPE, timeout=timeout, env=e)
+            p = subprocess.run(argv, stdin=fin, stdout=fout, stderr=subprocess.PIPE, timeout=timeout, env=e)
             return p.returncode, p.stderr.decode(errors="replace")[-4000:]
         except subprocess.TimeoutExpired:
             return -9, "timeout"
@@ -416,6 +427,10 @@ def load_known(prop_id):
 
 # ---------------------------------------------------------------------------------------------------
 # evidence
+
+def daemon_test_argv():
+    return [os.path.join(BUILD, "daemon.test"), "-test.run", "^TestVerifDriver$", "-test.count=1"]
+
 
 def write_evidence(prop_id, ev):
     os.makedirs(os.path.join(VERIF, "evidence"), exist_ok=True)
